@@ -147,6 +147,25 @@ def extract(tree):
     body = csrc.func_body(src, "janet_parser_flush")
     c["flushFields"] = sorted(set(re.findall(r"parser->(\w+)(?:\[0\]\.\w+)?\s*=\s*[01]\s*;", body)))
     c["flushResetsRootArgn"] = bool(re.search(r"parser->states\[0\]\.argn\s*=\s*0\s*;", body))
+    m = re.search(r"JANET_CORE_FN\s*\(\s*cfun_parse_insert\s*,", src)
+    if not m:
+        raise ExtractError("cfun_parse_insert not found")
+    i = src.index("{", src.index(")", m.end()))
+    # the doc strings contain parentheses: take the first '{' that starts a line-level block after the macro head
+    i = src.index(") {", m.end()) + 2
+    body = norm(src[i:csrc.match_brace(src, i)])
+    old_ins = "if(s->flags&PFLAG_CONTAINER){s->argn++;if(p->statecount==1){p->pending++;"
+    new_ins = "if(s->flags&PFLAG_CONTAINER){s->argn++;if(s==p->states){p->pending++;"
+    if old_ins in body:
+        c["insertRootTestByFrame"] = False
+    elif new_ins in body:
+        c["insertRootTestByFrame"] = True
+    else:
+        raise ExtractError("cfun_parse_insert: root-frame test not recognised")
+    for frag in ("if(s->consumer==tokenchar){janet_parser_consume(p,'');p->column--;s=p->states+p->statecount-1;}", "if(s->flags&PFLAG_COMMENT)s--;",
+                 "elseif(s->flags&(PFLAG_STRING|PFLAG_LONGSTRING)){", "janet_panic(\"cannotinsertvalueintoparser\");"):
+        if frag not in body:
+            raise ExtractError("cfun_parse_insert: shape changed (%s)" % frag)
     fr = re.search(r"struct\s+JanetParseState\s*\{([^}]*)\}", src)
     if not fr:
         raise ExtractError("struct JanetParseState not found")
@@ -246,6 +265,8 @@ def render(tree):
     L.append("/-- `stringend`: minimal lengths guarding the reads bufstart[0..1] / bufstart[buflen-2..buflen-1] of the EOL strip -/")
     for key in ("stripLeadCRLFGuard", "stripLeadLFGuard", "stripTrailCRLFGuard", "stripTrailLFGuard"):
         L.append("abbrev %s : Nat := %d" % (key, c[key]))
+    L.append("/-- `parser/insert`: is the root frame recognised by the frame it inserts into (`s == p->states`) rather than by `statecount == 1`? -/")
+    L.append("abbrev insertRootTestByFrame : Bool := %s" % ("true" if c["insertRootTestByFrame"] else "false"))
     L.append("/-- does `contains_bad_chars` refuse symbols that read back as nil/true/false, a number, a keyword or nothing? -/")
     L.append("abbrev ppRefusesMisreadSymbols : Bool := %s" % ("true" if c["ppRefusesMisreadSymbols"] else "false"))
     L.append("\nend JanetModel.Gen.Parse")
